@@ -14,10 +14,14 @@
        classification of AddPartitionsToTxnHandler / AddOffsetsToTxnHandler / TxnOffsetCommitHandler
        / EndTxnHandler / SendProduceReqHandler, _sender_routine's exception filter, _fail_all.
 
-   A call is atomic here: it is awaited to completion (send = send() + await the returned future)
-   before the next call starts — exactly how harness/impl/c16_impl.py drives the real producer.
+   A call is awaited to completion (send = send() + await the returned future) before the next call
+   starts — exactly how harness/impl/c16_impl.py drives the real producer.  The exception is the
+   nowait send (SendNW): its future is kept and the next call starts at once, so that the
+   registration of its partition and its Produce happen while the manager is already COMMITTING /
+   ABORTING; see [call] and [await_sends].  Both partitions have the same leader in programs with
+   nowait sends.
    A fault hits the i-th faultable request (AddPartitionsToTxn, AddOffsetsToTxn, TxnOffsetCommit,
-   EndTxn, Produce) issued during the call. *)
+   EndTxn, Produce) that reaches the cluster during the call. *)
 From Coq Require Import ZArith List Bool.
 From Verif Require Import Imp TxnTable.
 Import ListNotations.
@@ -54,14 +58,19 @@ Definition trans (s t : tst) : option tst := if table s t then Some t else None.
 Inductive code := E3 | E7 | E14 | E15 | E16 | E29 | E30 | E45 | E47 | E48 | E49 | E51 | E53 | EOther.
 
 Inductive fkind := FErr (c : code) | FDropBefore | FDropAfter.
-Inductive fidx := I0 | I1.
+Inductive fidx := I0 | I1 | I2 | I3.
+Definition idx_nat (i : fidx) : nat := match i with I0 => 0 | I1 => 1 | I2 => 2 | I3 => 3 end%nat.
 Definition fault := option (fidx * fkind).
 
 Inductive part := P0 | P1.       (* the two partitions of the topic *)
+(* a set of partitions: (contains P0, contains P1) *)
+Definition pset := (bool * bool)%type.
+Definition one (p : part) : pset := match p with P0 => (true, false) | P1 => (false, true) end.
+Definition is_none (B : pset) : bool := negb (fst B) && negb (snd B).
 
 Inductive req :=
-| RAddPartitions (p : part) | RAddOffsets | RTxnOffsetCommit | REndTxn (commit : bool)
-| RProduce (p : part) | RFindCoord (group : bool).
+| RAddPartitions (B : pset) | RAddOffsets | RTxnOffsetCommit | REndTxn (commit : bool)
+| RProduce (B : pset) | RFindCoord (group : bool).
 
 (* exception classes seen by the application *)
 Inductive exn :=
@@ -72,7 +81,15 @@ Inductive exn :=
 Inductive result := ROk | RRaise (e : exn) | RFutFail (e : exn).
 (* RRaise: the awaited API call raised; RFutFail: send() returned a future that failed *)
 
-Inductive call := Begin | Send (p : part) | SendOffsets | Commit | Abort | CtxOk | CtxExc.
+(* outcome of the delivery futures of earlier nowait sends, per partition, when they are awaited *)
+Definition futs := (option result * option result)%type.
+Definition no_futs : futs := (None, None).
+
+(* SendNW p: send() is awaited, the future it returns is NOT: the next call starts at once, with the
+   batch still queued.  The application awaits the outstanding futures when the next commit / abort /
+   context exit has returned (or raised), or right before any other call that is not a nowait send
+   (harness/impl/c16_impl.py does exactly this). *)
+Inductive call := Begin | Send (p : part) | SendOffsets | Commit | Abort | CtxOk | CtxExc | SendNW (p : part).
 
 Record tstate := mkT {
   st : tst;
@@ -80,22 +97,34 @@ Record tstate := mkT {
   grp : bool;                (* _txn_consumer_group is not None *)
   gck : bool;                (* Sender._coordinators has the GROUP coordinator cached *)
   werr : option exn;         (* exception stored in _transaction_waiter *)
-  gap0 : bool; gap1 : bool   (* environment: the partition leader is missing a sequence range —
+  gap0 : bool; gap1 : bool;  (* environment: the partition leader is missing a sequence range —
                                 a batch whose Produce failed non-retriably had already consumed its
                                 sequence numbers (_pop_batch), so every later batch for the
                                 partition is answered OUT_OF_ORDER_SEQUENCE_NUMBER *)
+  nw0 : bool; nw1 : bool     (* a batch of nowait sends is queued for the partition and its
+                                futures have not been awaited (only in IN_TRANSACTION) *)
 }.
 
-Definition init_state : tstate := mkT UNINIT false false false false None false false.
+Definition init_state : tstate := mkT UNINIT false false false false None false false false false.
 (* after start(): InitProducerId succeeded, set_pid_and_epoch -> _transition_to(READY) *)
 Definition started : option tstate :=
-  match trans UNINIT READY with Some s => Some (mkT s false false false false None false false) | None => None end.
+  match trans UNINIT READY with
+  | Some s => Some (mkT s false false false false None false false false false)
+  | None => None end.
+
+Definition set_st (s : tstate) (t : tst) := mkT t (p0 s) (p1 s) (grp s) (gck s) (werr s) (gap0 s) (gap1 s) (nw0 s) (nw1 s).
+Definition set_parts (s : tstate) (a b : bool) := mkT (st s) a b (grp s) (gck s) (werr s) (gap0 s) (gap1 s) (nw0 s) (nw1 s).
+Definition set_grpb (s : tstate) (g : bool) := mkT (st s) (p0 s) (p1 s) g (gck s) (werr s) (gap0 s) (gap1 s) (nw0 s) (nw1 s).
+Definition set_gck (s : tstate) (g : bool) := mkT (st s) (p0 s) (p1 s) (grp s) g (werr s) (gap0 s) (gap1 s) (nw0 s) (nw1 s).
+Definition set_werr (s : tstate) (w : option exn) := mkT (st s) (p0 s) (p1 s) (grp s) (gck s) w (gap0 s) (gap1 s) (nw0 s) (nw1 s).
+Definition set_gaps (s : tstate) (B : pset) := mkT (st s) (p0 s) (p1 s) (grp s) (gck s) (werr s) (gap0 s || fst B) (gap1 s || snd B) (nw0 s) (nw1 s).
+Definition set_nw (s : tstate) (a b : bool) := mkT (st s) (p0 s) (p1 s) (grp s) (gck s) (werr s) (gap0 s) (gap1 s) a b.
 
 (* ---------- error classification of the handlers ------------------------------------------- *)
 Inductive action :=
 | ASuccess
 | ARetry (dead : bool)       (* back off and re-send; dead: _coordinator_dead first -> FindCoordinator *)
-| AAbortable (e : exn)       (* txn_manager.error_transaction(e) *)
+| AAbortable (e : exn)       (* Sender._abortable_error(e) -> txn_manager.error_transaction(e) *)
 | AFatal (e : exn)           (* exception escapes the sender task -> _fail_all -> fatal_error(e) *)
 | AFailBatch (e : exn).      (* produce only: batch.failure(e), nothing else *)
 
@@ -167,34 +196,30 @@ Definition classify (k : rkind) (f : fkind) : action :=
               end
   end.
 
-(* what happens to the request with index [i] of the call *)
-Definition act_at (k : rkind) (f : fault) (i : fidx) : action :=
+(* what happens to the [n]-th faultable request of the call (counted from 0 in the order the requests
+   reach the cluster when nothing fails; a call carries at most one fault, so the positions after a
+   re-sent request do not matter) *)
+Definition act_at (k : rkind) (f : fault) (n : nat) : action :=
   match f with
-  | Some (j, fk) => match i, j with
-                    | I0, I0 | I1, I1 => classify k fk
-                    | _, _ => ASuccess
-                    end
+  | Some (j, fk) => if Nat.eqb (idx_nat j) n then classify k fk else ASuccess
   | None => ASuccess
   end.
 
 (* ---------- TransactionManager pieces ------------------------------------------------------- *)
 Definition has_part (s : tstate) (p : part) : bool :=
   match p with P0 => p0 s | P1 => p1 s end.
-Definition add_part (s : tstate) (p : part) : tstate :=
-  match p with
-  | P0 => mkT (st s) true (p1 s) (grp s) (gck s) (werr s) (gap0 s) (gap1 s)
-  | P1 => mkT (st s) (p0 s) true (grp s) (gck s) (werr s) (gap0 s) (gap1 s)
-  end.
+Definition add_parts (s : tstate) (B : pset) : tstate := set_parts s (p0 s || fst B) (p1 s || snd B).
+Definition add_part (s : tstate) (p : part) : tstate := add_parts s (one p).
 Definition has_gap (s : tstate) (p : part) : bool :=
   match p with P0 => gap0 s | P1 => gap1 s end.
-Definition set_gap (s : tstate) (p : part) : tstate :=
-  match p with
-  | P0 => mkT (st s) (p0 s) (p1 s) (grp s) (gck s) (werr s) true (gap1 s)
-  | P1 => mkT (st s) (p0 s) (p1 s) (grp s) (gck s) (werr s) (gap0 s) true
-  end.
+Definition set_gap (s : tstate) (p : part) : tstate := set_gaps s (one p).
 Definition is_empty_txn (s : tstate) : bool := negb (p0 s) && negb (p1 s) && negb (grp s).
+(* outstanding nowait sends (they exist only inside a transaction) *)
+Definition pending (s : tstate) : bool :=
+  match st s with IN_TXN => nw0 s || nw1 s | _ => false end.
 
-(* error_transaction(e) / fatal_error(e): transition, clear partitions and group, store e *)
+(* error_transaction(e) / fatal_error(e): transition, store e; every outstanding batch has been
+   failed or has completed by then *)
 Definition to_error (s : tstate) (target : tst) (e : exn) : option tstate :=
   match trans (st s) target with
   | Some t =>
@@ -202,14 +227,14 @@ Definition to_error (s : tstate) (target : tst) (e : exn) : option tstate :=
       | ABORTABLE =>
           (* error_transaction keeps what the coordinator has registered (_txn_partitions,
              _txn_consumer_group): the abort has to end it there with EndTxn(ABORT) *)
-          Some (mkT t (p0 s) (p1 s) (grp s) (gck s) (Some e) (gap0 s) (gap1 s))
-      | _ => Some (mkT t false false false (gck s) (Some e) (gap0 s) (gap1 s))
+          Some (set_nw (set_werr (set_st s t) (Some e)) false false)
+      | _ => Some (set_nw (set_werr (set_grpb (set_parts (set_st s t) false false) false) (Some e)) false false)
       end
   | None => None
   end.
 
 (* the model is stuck when an internal _transition_to assertion fails (unreachable with the table
-   as it is; with a changed table the correspondence reports it) *)
+   as it is; with a changed table the proofs and the correspondence report it) *)
 Definition XStuck : result := RRaise XAssertion.
 
 Definition fail_with (s : tstate) (target : tst) (e : exn) (mk : exn -> result) (rq : list req)
@@ -223,26 +248,29 @@ Definition resend (r : req) (dead : bool) (group : bool) : list req :=
   [r] ++ (if dead then [RFindCoord group] else []) ++ [r].
 
 (* ---------- the API ------------------------------------------------------------------------- *)
-(* Produce for partition p, request index i; [s] already reflects the AddPartitionsToTxn outcome *)
-Definition do_produce (s : tstate) (p : part) (f : fault) (i : fidx) (pre : list req)
+(* what the leader answers to a batch for p that reaches it *)
+Definition at_leader (s : tstate) (p : part) : result :=
+  if has_gap s p then RFutFail (XCode E45) else ROk.
+
+(* Produce for partition p at fault position n; [s] already reflects the AddPartitionsToTxn outcome *)
+Definition do_produce (s : tstate) (p : part) (f : fault) (n : nat) (pre : list req)
   : tstate * result * list req :=
-  (* what the leader answers to a batch that reaches it *)
-  let at_leader := if has_gap s p then RFutFail (XCode E45) else ROk in
-  match act_at KProduce f i with
-  | ASuccess => (s, at_leader, pre ++ [RProduce p])
-  | ARetry _ => (s, at_leader, pre ++ [RProduce p; RProduce p])
-  | AFailBatch e | AAbortable e | AFatal e => (set_gap s p, RFutFail e, pre ++ [RProduce p])
+  match act_at KProduce f n with
+  | ASuccess => (s, at_leader s p, pre ++ [RProduce (one p)])
+  | ARetry _ => (s, at_leader s p, pre ++ [RProduce (one p); RProduce (one p)])
+  | AFailBatch e | AAbortable e | AFatal e => (set_gap s p, RFutFail e, pre ++ [RProduce (one p)])
   end.
 
-Definition api_send (s : tstate) (p : part) (f : fault) : tstate * result * list req :=
+(* [b]: fault position of the first request of the call *)
+Definition api_send (s : tstate) (p : part) (f : fault) (b : nat) : tstate * result * list req :=
   match st s with
   | IN_TXN =>
-      if has_part s p then do_produce s p f I0 []
+      if has_part s p then do_produce s p f b []
       else
-        let r := RAddPartitions p in
-        match act_at KAddPartitions f I0 with
-        | ASuccess => do_produce (add_part s p) p f I1 [r]
-        | ARetry d => do_produce (add_part s p) p f I1 (resend r d false)
+        let r := RAddPartitions (one p) in
+        match act_at KAddPartitions f b with
+        | ASuccess => do_produce (add_part s p) p f (S b) [r]
+        | ARetry d => do_produce (add_part s p) p f (S b) (resend r d false)
         | AAbortable e =>
             (* Sender._abortable_error: the batch that was waiting for the partition is failed
                (MessageAccumulator.fail_partitions), never produced *)
@@ -252,83 +280,200 @@ Definition api_send (s : tstate) (p : part) (f : fault) : tstate * result * list
   | _ => (s, RRaise XIllegalOperation, [])
   end.
 
-Definition do_txn_offset_commit (s : tstate) (f : fault) (i : fidx) (pre : list req)
+Definition do_txn_offset_commit (s : tstate) (f : fault) (n : nat) (pre : list req)
   : tstate * result * list req :=
   let pre := pre ++ (if gck s then [] else [RFindCoord true]) in
-  let s := mkT (st s) (p0 s) (p1 s) (grp s) true (werr s) (gap0 s) (gap1 s) in
-  match act_at KTxnOffsetCommit f i with
+  let s := set_gck s true in
+  match act_at KTxnOffsetCommit f n with
   | ASuccess => (s, ROk, pre ++ [RTxnOffsetCommit])
   | ARetry d => (s, ROk, pre ++ resend RTxnOffsetCommit d true)
   | AAbortable e => fail_with s ABORTABLE e RRaise (pre ++ [RTxnOffsetCommit])
   | AFatal e | AFailBatch e => fail_with s FATAL e RRaise (pre ++ [RTxnOffsetCommit])
   end.
 
-Definition set_grp (s : tstate) : tstate := mkT (st s) (p0 s) (p1 s) true (gck s) (werr s) (gap0 s) (gap1 s).
+Definition set_grp (s : tstate) : tstate := set_grpb s true.
 
-Definition api_send_offsets (s : tstate) (f : fault) : tstate * result * list req :=
+Definition api_send_offsets (s : tstate) (f : fault) (b : nat) : tstate * result * list req :=
   match st s with
   | IN_TXN =>
-      if grp s then do_txn_offset_commit s f I0 []
+      if grp s then do_txn_offset_commit s f b []
       else
-        match act_at KAddOffsets f I0 with
-        | ASuccess => do_txn_offset_commit (set_grp s) f I1 [RAddOffsets]
-        | ARetry d => do_txn_offset_commit (set_grp s) f I1 (resend RAddOffsets d false)
+        match act_at KAddOffsets f b with
+        | ASuccess => do_txn_offset_commit (set_grp s) f (S b) [RAddOffsets]
+        | ARetry d => do_txn_offset_commit (set_grp s) f (S b) (resend RAddOffsets d false)
         | AAbortable e => fail_with s ABORTABLE e RRaise [RAddOffsets]
         | AFatal e | AFailBatch e => fail_with s FATAL e RRaise [RAddOffsets]
         end
   | _ => (s, RRaise XIllegalOperation, [])
   end.
 
-(* _do_txn_commit after the state moved to COMMITTING / ABORTING (cur) *)
-Definition end_txn (s : tstate) (cur : tst) (commit : bool) (f : fault) : tstate * result * list req :=
-  let s1 := mkT cur (p0 s) (p1 s) (grp s) (gck s) None (gap0 s) (gap1 s) in
+(* _do_txn_commit once the state is COMMITTING / ABORTING ([st s1]) and every batch has been
+   flushed; EndTxn is the request at fault position n *)
+Definition end_flushed (s1 : tstate) (commit : bool) (f : fault) (n : nat) : tstate * result * list req :=
   let complete (rq : list req) :=
-    match trans cur READY with
-    | Some t => (mkT t false false false (gck s) None (gap0 s) (gap1 s), ROk, rq)
+    match trans (st s1) READY with
+    | Some t => (set_grpb (set_parts (set_st s1 t) false false) false, ROk, rq)
     | None => (s1, XStuck, rq)
     end in
-  if is_empty_txn s then complete []
+  if is_empty_txn s1 then complete []
   else
     let r := REndTxn commit in
-    match act_at KEndTxn f I0 with
+    match act_at KEndTxn f n with
     | ASuccess => complete [r]
     | ARetry d => complete (resend r d false)
     | AAbortable e | AFatal e | AFailBatch e => fail_with s1 FATAL e RRaise [r]
     end.
 
-Definition api_commit (s : tstate) (f : fault) : tstate * result * list req :=
+(* ---------- awaiting the futures of nowait sends --------------------------------------------- *)
+Definition fut_for (B : pset) (mk : part -> result) : futs :=
+  (if fst B then Some (mk P0) else None, if snd B then Some (mk P1) else None).
+Definition futs_or (a b : futs) : futs :=
+  (match fst a with Some x => Some x | None => fst b end,
+   match snd a with Some x => Some x | None => snd b end).
+
+(* one Produce request carrying the batches of the partitions B (both partitions have the same
+   leader), fault position n *)
+Definition produce_set (s : tstate) (B : pset) (f : fault) (n : nat) : tstate * futs * list req :=
+  match act_at KProduce f n with
+  | ASuccess => (s, fut_for B (at_leader s), [RProduce B])
+  | ARetry _ => (s, fut_for B (at_leader s), [RProduce B; RProduce B])
+  | AFailBatch e | AAbortable e | AFatal e =>
+      (set_gaps s B, fut_for B (fun _ => RFutFail e), [RProduce B])
+  end.
+
+Record flushed := mkF {
+  fl_s : tstate;
+  fl_futs : futs;
+  fl_rq : list req;
+  fl_stop : option result;   (* Some r: an abortable / fatal error ended it; r is what a call that
+                                waits for the transaction (commit / abort) raises *)
+  fl_n : nat                 (* number of faultable requests when nothing fails *)
+}.
+
+(* The sender with the batches of the nowait sends N queued, in state IN_TRANSACTION / COMMITTING /
+   ABORTING (Sender._sender_routine + _maybe_do_transactional_request):
+     - the partitions A of N not yet in the transaction are registered by ONE AddPartitionsToTxn; they
+       are muted until it succeeds;
+     - the batches of the partitions R of N already in the transaction are drained in the same
+       iteration: their Produce reaches the cluster right after the AddPartitionsToTxn;
+     - then the batches of A are produced; a batch of R that has to be re-sent travels with them. *)
+Definition await_sends (s : tstate) (f : fault) (b : nat) : flushed :=
+  let N := (nw0 s, nw1 s) in
+  let A := (nw0 s && negb (p0 s), nw1 s && negb (p1 s)) in
+  let R := (nw0 s && p0 s, nw1 s && p1 s) in
+  let s := set_nw s false false in
+  if is_none A then
+    let '(s', fu, rq) := produce_set s N f b in mkF s' fu rq None 1
+  else
+    let ap := RAddPartitions A in
+    let sa := add_parts s A in
+    let pr := if is_none R then [] else [RProduce R] in
+    let cnt := if is_none R then 2%nat else 3%nat in
+    let stop (target : tst) (e : exn) :=
+      (* the batches waiting for A are failed with e (fail_partitions / fail_all); the batches of R
+         are already on the wire and complete *)
+      let fu := futs_or (fut_for R (at_leader s)) (fut_for A (fun _ => RFutFail e)) in
+      match to_error s target e with
+      | Some s' => mkF s' fu (ap :: pr) (Some (RRaise e)) cnt
+      | None => mkF s fu (ap :: pr) (Some XStuck) cnt
+      end in
+    match act_at KAddPartitions f b with
+    | AAbortable e => stop ABORTABLE e
+    | AFatal e | AFailBatch e => stop FATAL e
+    | ARetry d =>
+        mkF sa (fut_for N (at_leader sa))
+            (ap :: pr ++ (if d then [RFindCoord false] else []) ++ [ap; RProduce (if is_none R then N else A)])
+            None cnt
+    | ASuccess =>
+        if is_none R then
+          let '(s', fu, rq) := produce_set sa N f (S b) in mkF s' fu (ap :: rq) None cnt
+        else
+          match act_at KProduce f (S b) with
+          | ASuccess =>
+              let '(s', fu, rq) := produce_set sa A f (S (S b)) in
+              mkF s' (futs_or (fut_for R (at_leader sa)) fu) (ap :: RProduce R :: rq) None cnt
+          | ARetry _ => mkF sa (fut_for N (at_leader sa)) [ap; RProduce R; RProduce N] None cnt
+          | AFailBatch e | AAbortable e | AFatal e =>
+              let s' := set_gaps sa R in
+              mkF s' (futs_or (fut_for R (fun _ => RFutFail e)) (fut_for A (at_leader s')))
+                  [ap; RProduce R; RProduce A] None cnt
+          end
+    end.
+
+(* commit / abort: committing_transaction / aborting_transaction, then the sender registers and
+   produces what is still queued, flush_for_commit, EndTxn *)
+Definition end_txn (s : tstate) (cur : tst) (commit : bool) (f : fault)
+  : tstate * result * list req * futs :=
+  let s1 := set_werr (set_st s cur) None in
+  if nw0 s || nw1 s then
+    let fl := await_sends s1 f 0 in
+    match fl_stop fl with
+    | Some r => (fl_s fl, r, fl_rq fl, fl_futs fl)
+    | None => let '(s2, r, rq) := end_flushed (fl_s fl) commit f (fl_n fl) in
+              (s2, r, fl_rq fl ++ rq, fl_futs fl)
+    end
+  else (end_flushed s1 commit f 0, no_futs).
+
+Definition api_commit (s : tstate) (f : fault) : tstate * result * list req * futs :=
   match st s with
-  | ABORTABLE => (s, RRaise (match werr s with Some e => e | None => XAssertion end), [])
+  | ABORTABLE => (s, RRaise (match werr s with Some e => e | None => XAssertion end), [], no_futs)
   | _ => match trans (st s) COMMITTING with
          | Some cur => end_txn s cur true f
-         | None => (s, RRaise XAssertion, [])
+         | None => (s, RRaise XAssertion, [], no_futs)
          end
   end.
 
-Definition api_abort (s : tstate) (f : fault) : tstate * result * list req :=
+Definition api_abort (s : tstate) (f : fault) : tstate * result * list req * futs :=
   match trans (st s) ABORTING with
   | Some cur => end_txn s cur false f
-  | None => (s, RRaise XAssertion, [])
+  | None => (s, RRaise XAssertion, [], no_futs)
   end.
 
 Definition api_begin (s : tstate) : tstate * result * list req :=
   match trans (st s) IN_TXN with
-  | Some t => (mkT t (p0 s) (p1 s) (grp s) (gck s) None (gap0 s) (gap1 s), ROk, [])
+  | Some t => (set_werr (set_st s t) None, ROk, [])
   | None => (s, RRaise XAssertion, [])
   end.
 
-Definition api (s : tstate) (c : call) (f : fault) : tstate * result * list req :=
+Definition api_send_nw (s : tstate) (p : part) : tstate * result * list req :=
+  match st s with
+  | IN_TXN => (match p with P0 => set_nw s true (nw1 s) | P1 => set_nw s (nw0 s) true end, ROk, [])
+  | _ => (s, RRaise XIllegalOperation, [])
+  end.
+
+(* the calls that do not end the transaction, with nothing outstanding; b: first fault position *)
+Definition api_plain (s : tstate) (c : call) (f : fault) (b : nat) : tstate * result * list req :=
   match c with
   | Begin => api_begin s
-  | Send p => api_send s p f
-  | SendOffsets => api_send_offsets s f
+  | Send p => api_send s p f b
+  | SendOffsets => api_send_offsets s f b
+  | SendNW p => api_send_nw s p
+  | _ => (s, RRaise XAssertion, [])
+  end.
+
+Definition is_end (c : call) : bool :=
+  match c with Commit | Abort | CtxOk | CtxExc => true | _ => false end.
+Definition is_nw (c : call) : bool := match c with SendNW _ => true | _ => false end.
+
+Definition api_full (s : tstate) (c : call) (f : fault) : tstate * result * list req * futs :=
+  match c with
   | Commit | CtxOk => api_commit s f
   | Abort => api_abort s f
   | CtxExc => match st s with
-              | FATAL => (s, ROk, [])        (* __aexit__ lets the application's exception out *)
+              | FATAL => (s, ROk, [], no_futs)        (* __aexit__ lets the application's exception out *)
               | _ => api_abort s f
               end
+  | _ =>
+      if pending s && negb (is_nw c) then
+        (* the application first awaits the outstanding futures, then makes the call *)
+        let fl := await_sends s f 0 in
+        let '(s2, r, rq) := api_plain (fl_s fl) c f (fl_n fl) in
+        (s2, r, fl_rq fl ++ rq, fl_futs fl)
+      else (api_plain s c f 0, no_futs)
   end.
+
+Definition api (s : tstate) (c : call) (f : fault) : tstate * result * list req := fst (api_full s c f).
+Definition api_futs (s : tstate) (c : call) (f : fault) : futs := snd (api_full s c f).
 
 (* a program: calls with their faults *)
 Fixpoint run (s : tstate) (cs : list (call * fault)) : list (result * list req) * tstate :=
@@ -341,6 +486,27 @@ Fixpoint run (s : tstate) (cs : list (call * fault)) : list (result * list req) 
   end.
 
 Definition is_error (r : result) : bool := match r with ROk => false | _ => true end.
+
+(* ---------- the transition relation the protocol needs: a hand-written table ---------------- *)
+(* KIP-98 / the Java client's TransactionManager.State.isTransitionValid, plus what aiokafka's sender
+   does: it sends the pending AddPartitionsToTxn / AddOffsetsToTxn / TxnOffsetCommit BEFORE the EndTxn,
+   also when the manager is already COMMITTING / ABORTING, so a topic / group authorization failure can
+   arrive in these two states as well.
+   [spec_must]: transitions the producer cannot work without.  [spec_may]: these, and into the two
+   error states from anywhere (the code's catch-all); everything else must be refused. *)
+Definition spec_must (s t : tst) : bool :=
+  match s, t with
+  | UNINIT, READY | COMMITTING, READY | ABORTING, READY => true
+  | READY, IN_TXN => true
+  | IN_TXN, COMMITTING => true
+  | IN_TXN, ABORTING | ABORTABLE, ABORTING => true
+  | IN_TXN, ABORTABLE | COMMITTING, ABORTABLE | ABORTING, ABORTABLE => true
+  | FATAL, FATAL => false
+  | _, FATAL => true
+  | _, _ => false
+  end.
+Definition spec_may (s t : tst) : bool :=
+  spec_must s t || match t with ABORTABLE | FATAL => true | _ => false end.
 
 (* ---------- the documented protocol: an independent 7-state automaton ----------------------- *)
 (* KIP-98 / KafkaProducer javadoc: initTransactions, beginTransaction, send / sendOffsetsToTransaction,
@@ -358,6 +524,8 @@ Definition pstep (q : pstate) (e : pev) : option pstate :=
   | PInTxn, PSend => Some PInTxn
   | PInTxn, PSendOffsets => Some PInTxn
   | PInTxn, PAbortableErr => Some PAbortableError
+  | PCommitting, PAbortableErr => Some PAbortableError    (* a pending AddPartitions / AddOffsets / *)
+  | PAborting, PAbortableErr => Some PAbortableError      (* TxnOffsetCommit is refused while ending *)
   | PInTxn, PBeginCommit => Some PCommitting
   | PInTxn, PBeginAbort => Some PAborting
   | PAbortableError, PBeginAbort => Some PAborting
@@ -376,7 +544,7 @@ Fixpoint prun (q : pstate) (es : list pev) : option pstate :=
 Definition pallowed (q : pstate) (c : call) : bool :=
   match c, q with
   | Begin, PReady => true
-  | Send _, PInTxn | SendOffsets, PInTxn => true
+  | Send _, PInTxn | SendOffsets, PInTxn | SendNW _, PInTxn => true
   | Commit, PInTxn | CtxOk, PInTxn => true
   | Abort, PInTxn | Abort, PAbortableError => true
   | CtxExc, PInTxn | CtxExc, PAbortableError | CtxExc, PFatalError => true
@@ -392,11 +560,15 @@ Definition call_paths (q : pstate) (c : call) : list (list pev * okind) :=
   | Send _ => [([PSend], KClean); ([PSend; PAbortableErr], KAbortable); ([PSend; PFatalErr], KFatal)]
   | SendOffsets => [([PSendOffsets], KClean); ([PSendOffsets; PAbortableErr], KAbortable);
                     ([PSendOffsets; PFatalErr], KFatal)]
-  | Commit | CtxOk => [([PBeginCommit; PComplete], KClean); ([PBeginCommit; PFatalErr], KFatal)]
-  | Abort => [([PBeginAbort; PComplete], KClean); ([PBeginAbort; PFatalErr], KFatal)]
+  | SendNW _ => [([PSend], KClean)]
+  | Commit | CtxOk => [([PBeginCommit; PComplete], KClean); ([PBeginCommit; PAbortableErr], KAbortable);
+                       ([PBeginCommit; PFatalErr], KFatal)]
+  | Abort => [([PBeginAbort; PComplete], KClean); ([PBeginAbort; PAbortableErr], KAbortable);
+              ([PBeginAbort; PFatalErr], KFatal)]
   | CtxExc => match q with
               | PFatalError => [([], KClean)]
-              | _ => [([PBeginAbort; PComplete], KClean); ([PBeginAbort; PFatalErr], KFatal)]
+              | _ => [([PBeginAbort; PComplete], KClean); ([PBeginAbort; PAbortableErr], KAbortable);
+                      ([PBeginAbort; PFatalErr], KFatal)]
               end
   end.
 
@@ -427,7 +599,7 @@ Fixpoint in_protocol_order (inside : bool) (cs : list call) : bool :=
   | c :: rest =>
       match c, inside with
       | Begin, false => in_protocol_order true rest
-      | Send _, true | SendOffsets, true => in_protocol_order true rest
+      | Send _, true | SendOffsets, true | SendNW _, true => in_protocol_order true rest
       | Commit, true | Abort, true | CtxOk, true | CtxExc, true => in_protocol_order false rest
       | _, _ => false
       end
@@ -446,23 +618,27 @@ Definition exn_num (e : exn) : Z :=
 (* result -> (kind, exn) : kind 0 ok, 1 raised by the call, 2 send future failed *)
 Definition result_num (r : result) : Z * Z :=
   match r with ROk => (0, 0) | RRaise e => (1, exn_num e) | RFutFail e => (2, exn_num e) end.
-Definition part_num (p : part) : Z := match p with P0 => 0 | P1 => 1 end.
+(* an awaited nowait future: (0,0) none, (3,0) succeeded, (2,e) failed *)
+Definition fut_num (o : option result) : list Z :=
+  match o with None => [0; 0] | Some ROk => [3; 0] | Some (RRaise e) | Some (RFutFail e) => [2; exn_num e] end.
+Definition b2z (b : bool) : Z := if b then 1 else 0.
+Definition pset_num (B : pset) : Z := b2z (fst B) + 2 * b2z (snd B).
 Definition req_num (r : req) : Z * Z :=
   match r with
-  | RAddPartitions p => (24, part_num p) | RAddOffsets => (25, 0) | RTxnOffsetCommit => (28, 0)
-  | REndTxn c => (26, if c then 1 else 0) | RProduce p => (0, part_num p)
+  | RAddPartitions B => (24, pset_num B) | RAddOffsets => (25, 0) | RTxnOffsetCommit => (28, 0)
+  | REndTxn c => (26, if c then 1 else 0) | RProduce B => (0, pset_num B)
   | RFindCoord g => (10, if g then 0 else 1)
   end.
-Definition b2z (b : bool) : Z := if b then 1 else 0.
 
-(* per call: (result, requests, state code after, [p0; p1; grp]) *)
+(* per call: (result, requests, state code after, [p0; p1; grp] ++ awaited futures) *)
 Fixpoint run_obs (s : tstate) (cs : list (call * fault))
   : list ((Z * Z) * list (Z * Z) * Z * list Z) :=
   match cs with
   | [] => []
   | (c, f) :: rest =>
-      let '(s', r, rq) := api s c f in
-      (result_num r, map req_num rq, st_code s', [b2z (p0 s'); b2z (p1 s'); b2z (grp s')])
+      let '(s', r, rq, fu) := api_full s c f in
+      (result_num r, map req_num rq, st_code s',
+       [b2z (p0 s'); b2z (p1 s'); b2z (grp s')] ++ fut_num (fst fu) ++ fut_num (snd fu))
         :: run_obs s' rest
   end.
 
@@ -475,7 +651,7 @@ Definition replay (cs : list (call * fault)) :=
 (* ---------- compact program encoding for bulk evaluation (harness/c16.py) -------------------- *)
 Definition call_of (n : Z) : call :=
   match n with 0 => Begin | 1 => Send P0 | 2 => Send P1 | 3 => SendOffsets | 4 => Commit | 5 => Abort
-             | 6 => CtxOk | _ => CtxExc end.
+             | 6 => CtxOk | 7 => CtxExc | 8 => SendNW P0 | _ => SendNW P1 end.
 Definition kind_of (n : Z) : fkind :=
   match n with
   | 0 => FErr E3 | 1 => FErr E7 | 2 => FErr E14 | 3 => FErr E15 | 4 => FErr E16 | 5 => FErr E29
@@ -485,7 +661,9 @@ Definition kind_of (n : Z) : fkind :=
 Definition fault_of (n : Z) : fault :=
   if n =? 0 then None
   else if n <=? 16 then Some (I0, kind_of (n - 1))
-  else Some (I1, kind_of (n - 17)).
+  else if n <=? 32 then Some (I1, kind_of (n - 17))
+  else if n <=? 48 then Some (I2, kind_of (n - 33))
+  else Some (I3, kind_of (n - 49)).
 Definition decode_prog (p : list (Z * Z)) : list (call * fault) :=
   map (fun cf => (call_of (fst cf), fault_of (snd cf))) p.
 
